@@ -135,6 +135,28 @@ def dynamic_call(I, fv, args, kwargs, node, awaited):
     return d
 
 
+
+class GetStreams(Contract):
+    """get_streams(): hands out the client's OWN read and write stream ends (not clones): closing the write stream the
+    caller was given is what ends the writer loop and closes the child's stdin"""
+    key = f"{STDIO}::StdioClient.get_streams"
+    prop = "C06"
+    covers = ("return",)
+
+    def setup(self, I):
+        self.client = ST.make_client(I)
+        self.rs = E.make_read_stream(I, "incoming_r")
+        I.set_attr(self.client, "_incoming_recv", self.rs, record=False)
+        return [self.client], {}
+
+    def post(self, I, result):
+        parts = I.client_parts
+        r = z3.simplify(result)
+        ok = z3.And(V.is_tuple(r), z3.Length(Val.titems(r)) == 2, Val.titems(r)[0] == self.rs,
+                    Val.titems(r)[1] == parts["outgoing_send"])
+        I.oblige(self.name("returns_the_clients_own_stream_ends"), ok, watch={"result": result})
+
+
 class C06(Check):
     prop = "C06"
     level = "proof"
@@ -161,7 +183,7 @@ class C06(Check):
         from checks import C17
         # "a message that cannot be serialised is dropped alone" presupposes that every JSON value CAN be serialised:
         # fast_json.dumps' dispatch (fallback to the stdlib when orjson refuses a value) is re-verified here (C17)
-        return [StdinWriter(), C17.Dumps(True), C17.Dumps(False)]
+        return [StdinWriter(), C17.Dumps(True), C17.Dumps(False), GetStreams()]
 
     def loop_invariants(self):
         return {(f"{STDIO}::StdioClient._stdin_writer", 0): loop_inv}
